@@ -6,16 +6,24 @@ Model of ledger's sorting, truncating and regrouping posting handlers
   compare_items     compare.cc 42-113    push_sort_value (O_CONS list, O_NEG = inverted, `.simplified()`),
                                          sort_value_is_less_than value.cc 2194-2224
   truncate_xacts    filters.cc 86-152    --head / --tail
-  collapse_posts    filters.cc 399-489   --collapse / --depth N (totals map filters.h 431)
+  collapse_posts    filters.cc 399-489   --collapse / --depth N (totals map ordered by account fullname, filters.h 431-438)
+  sort_xacts        filters.h 279-323    --sort-xacts (sort_posts applied to each transaction)
   subtotal_posts    filters.cc 839-938   --subtotal (values map keyed by account fullname, filters.h 684)
   by_payee_posts    filters.cc 1143-1170 --by-payee (std::map<string, subtotal_posts>, filters.h 833)
   day_of_week_posts filters.cc 1221-1231, filters.h 918-920   --dow
   calc_posts        filters.cc 288-318   running total
 
 Data flow for `reg` (chain.cc builds the chain back to front): limit filter →
-dow | by-payee → subtotal → collapse → sort → calc (running total) → truncate →
-format.  A posting handed from one handler to the next is an `RPost`; `xid`
-stands for the `xact_t *` the C++ compares (`post->xact`).
+dow | by-payee → subtotal → collapse → sort | sort-xacts → calc (running total)
+→ truncate → format; any subset of these may be present (`Opts`, `report`).
+A posting handed from one handler to the next is an `RPost`; `xid` stands for
+the `xact_t *` the C++ compares (`post->xact`).
+
+Valuation: `value` is what the report's amount expression (`amount_expr`, e.g.
+`rounded(cost)` under -B) yields for the posting; calc_posts and
+collapse_posts accumulate it (post_t::add_to_value), while subtotal_posts
+accumulates the raw `post.amount` (filters.cc 902).  Every theorem holds for
+every assignment of `value`s.
 
 The comparison operators of the truncation window, the sort algorithm and the
 `.simplified()` of sort keys are read from the source (Gen/Regroup.lean).
@@ -38,7 +46,9 @@ structure RPost where
   payee   : String   -- `post.payee()`
   account : String   -- `reported_account()->fullname()`
   virt    : Bool     -- POST_VIRTUAL (both `(A)` and `[A]`)
-  amount  : Value    -- `amount` of a journal posting (`.amt`) or the compound value of a generated one
+  amount  : Value    -- `post.amount` of a journal posting (`.amt`), or the compound value (`.bal`) of a generated one
+  value   : Value    -- the amount expression evaluated on the posting (= `amount` unless a valuation such as -B is active)
+  vdate   : Int      -- `post.value_date()`: the date, or the latest date of the group a generated posting stands for
 deriving DecidableEq, Repr
 
 /-! ### The plain register: limit predicate, calc_posts -/
@@ -70,7 +80,7 @@ def xactPosts (f : Filter) (x : Xact) : List RPost :=
     | some a =>
       if f.pass x p then
         some { line := p.line, xid := x.line, date := x.date, payee := x.payee, account := p.account,
-               virt := p.kind ≠ .real, amount := .amt a }
+               virt := p.kind ≠ .real, amount := .amt a, value := .amt a, vdate := x.date }
       else none
     | none => none)
 
@@ -86,12 +96,12 @@ def vplus (a b : Value) : Value :=
 /-- calc_posts::operator() (filters.cc 288-318): `xdata.total = last total; total += amount`. -/
 def runTotals : Value → List RPost → List (RPost × Value)
   | _, [] => []
-  | t, p :: ps => (p, vplus t p.amount) :: runTotals (vplus t p.amount) ps
+  | t, p :: ps => (p, vplus t p.value) :: runTotals (vplus t p.value) ps
 
 def register (ps : List RPost) : List (RPost × Value) := runTotals .void ps
 
-/-- sum of the amounts of a posting list, accumulated like every handler does. -/
-def sumValue (ps : List RPost) : Value := ps.foldl (fun v p => vplus v p.amount) .void
+/-- sum of the values of a posting list, accumulated like every handler does. -/
+def sumValue (ps : List RPost) : Value := ps.foldl (fun v p => vplus v p.value) .void
 
 /-! ### Sorting -/
 
@@ -171,6 +181,11 @@ def consRun {α : Type} (xid : α → Nat) (p : α) : List (List α) → List (L
 def runs {α : Type} (xid : α → Nat) : List α → List (List α)
   | [] => []
   | p :: ps => consRun xid p (runs xid ps)
+
+/-- sort_xacts (filters.h 279-323): the sorter is flushed at every change of
+    `post.xact`, so each transaction is sorted by itself. -/
+def sortXacts (ks : List SortKey) (l : List RPost) : List RPost :=
+  (runs (fun p : RPost => p.xid) l).flatMap (sortPosts ks)
 
 /-! ### truncate_xacts (--head / --tail)
 Generic in the item type: in the chain the handler sits behind calc_posts, so
@@ -264,13 +279,24 @@ def AMap.upd {V : Type} (k : String) (f : Option V → V) (m : AMap V) : AMap V 
 
 inductive RErr
   | virtMix     -- "'equity' cannot accept virtual and non-virtual postings to the same account"
+  | nullAmount  -- "Cannot add an uninitialized amount to …" (a compound posting met an existing subtotal entry)
 deriving DecidableEq, Repr
 
 /-! ### subtotal_posts -/
 
+/-- What `value_t amount(post.amount)` (filters.cc 902) sees: a posting generated
+    by an upstream handler for a multi-commodity value carries that value in
+    `xdata().compound_value` and its `post.amount` is a null amount. -/
+def subAmt (p : RPost) : Option Value :=
+  match p.amount with
+  | .bal _ => none
+  | .int _ => none      -- the 0 a null-amount entry is reported as (such a posting's `post.amount` is null again)
+  | v => some v
+
 structure AcctVal where
   value : Value
   virt  : Bool
+  null  : Bool      -- the entry holds a null amount
 deriving Repr
 
 /-- the state of one subtotal_posts object: `values` and `component_posts`. -/
@@ -285,8 +311,11 @@ def SubState.empty : SubState := { values := [], posts := [] }
     virtual flag, an existing one is `add_or_set_value`d. -/
 def acctStep (o : Option AcctVal) (p : RPost) : AcctVal :=
   match o with
-  | none => { value := p.amount, virt := p.virt }
-  | some av => { av with value := vplus av.value p.amount }
+  | none => { value := (subAmt p).getD (.int 0), virt := p.virt, null := (subAmt p).isNone }
+  | some av =>
+    -- a null amount cast to BALANCE is the empty balance (value.cc in_place_cast), so an amount can be added to it
+    if av.null then { av with value := vplus (.bal []) ((subAmt p).getD (.int 0)), null := false }
+    else { av with value := vplus av.value ((subAmt p).getD (.int 0)) }
 
 /-- the "'equity' cannot accept virtual and non-virtual postings to the same
     account" test of filters.cc 920-923 -/
@@ -295,9 +324,17 @@ def virtClash (st : SubState) (p : RPost) : Bool :=
   | some av => av.virt != p.virt
   | none => false
 
+/-- `add_or_set_value` on an existing entry throws when the posting's amount is null
+    ("Cannot add an uninitialized amount to a balance" / "… two uninitialized amounts") -/
+def nullClash (st : SubState) (p : RPost) : Bool :=
+  match st.values.get? p.account with
+  | some _ => (subAmt p).isNone
+  | none => false
+
 /-- subtotal_posts::operator() (filters.cc 895-938). -/
 def SubState.add (st : SubState) (p : RPost) : Except RErr SubState :=
   if virtClash st p then .error .virtMix
+  else if nullClash st p then .error .nullAmount
   else .ok { values := st.values.upd p.account (fun o => acctStep o p), posts := st.posts ++ [p] }
 
 def SubState.addAll : SubState → List RPost → Except RErr SubState
@@ -311,18 +348,26 @@ def minDate : List RPost → Int
   | [p] => p.date
   | p :: ps => min p.date (minDate ps)
 
+/-- latest `value_date()` -/
 def maxDate : List RPost → Int
   | [] => 0
-  | [p] => p.date
-  | p :: ps => max p.date (maxDate ps)
+  | [p] => p.vdate
+  | p :: ps => max p.vdate (maxDate ps)
 
 /-- subtotal_posts::report_subtotal (filters.cc 839-893): one generated posting
-    per entry of `values`, in key order; nothing when no posting was seen. -/
-def SubState.report (st : SubState) (payee : String) : List RPost :=
+    per entry of `values`, in key order, all of one fresh temporary transaction
+    (`xid`); nothing when no posting was seen.  A null-amount entry reads as 0
+    (post.cc get_amount).  The generated posting is virtual when the account
+    has seen no non-virtual posting at all (`hasReal`: the ACCOUNT_EXT_HAS_NON_VIRTUALS
+    flag lives on the account, filters.cc 339-346, 932-937). -/
+def SubState.report (st : SubState) (payee : String) (xid : Nat) (hasReal : String → Bool) : List RPost :=
   if st.posts.isEmpty then []
   else st.values.map (fun kv =>
-    { line := 0, xid := 0, date := minDate st.posts, payee := payee, account := kv.1,
-      virt := kv.2.virt, amount := kv.2.value })
+    { line := 0, xid := xid, date := minDate st.posts, payee := payee, account := kv.1,
+      virt := !hasReal kv.1, amount := kv.2.value, value := kv.2.value, vdate := maxDate st.posts })
+
+/-- some posting to the account is not virtual -/
+def hasRealIn (posts : List RPost) (a : String) : Bool := posts.any (fun p => p.account = a && !p.virt)
 
 def pad2 (n : Int) : String :=
   let s := toString (n % 100).toNat
@@ -342,7 +387,7 @@ def dayName (i : Int) : String :=
 /-- `--subtotal`: every posting into one subtotal_posts, reported at flush. -/
 def subtotal (posts : List RPost) : Except RErr (List RPost) := do
   let st ← SubState.empty.addAll posts
-  pure (st.report ("- " ++ fmtPrinted (maxDate st.posts)))
+  pure (st.report ("- " ++ fmtPrinted (maxDate st.posts)) 0 (hasRealIn posts))
 
 /-! ### by_payee_posts -/
 
@@ -360,11 +405,15 @@ def byPayeeAll : AMap SubState → List RPost → Except RErr (AMap SubState)
     let m' ← byPayeeAdd m p
     byPayeeAll m' ps
 
+def amapKeys {V : Type} (m : AMap V) : List String := m.map (·.1)
+
 /-- `--by-payee`: flush reports each payee's subtotal in key order, the payee
-    text being the title. -/
+    text being the title; each report is a transaction of its own (numbered by
+    the payee's position in the map). -/
 def byPayee (posts : List RPost) : Except RErr (List RPost) := do
   let m ← byPayeeAll [] posts
-  pure (m.flatMap (fun kv => kv.2.report kv.1))
+  pure ((amapKeys m).flatMap (fun k =>
+    ((m.get? k).getD SubState.empty).report k ((amapKeys m).idxOf k + 1) (hasRealIn posts)))
 
 /-! ### day_of_week_posts -/
 
@@ -373,13 +422,14 @@ def dowBucket (i : Int) (posts : List RPost) : List RPost :=
   posts.filter (fun p => Cal.weekday p.date = i)
 
 /-- day_of_week_posts::flush (filters.cc 1221-1231): for Sunday … Saturday, the
-    bucket through subtotal_posts, reported with "%As". -/
+    bucket through subtotal_posts, reported with "%As" as a transaction of its own. -/
 def dowDays (posts : List RPost) : List Int → Except RErr (List RPost)
   | [] => .ok []
   | i :: is => do
     let st ← SubState.empty.addAll (dowBucket i posts)
     let rest ← dowDays posts is
-    pure (st.report (dayName i ++ "s") ++ rest)
+    -- the account flags are set while the buckets are fed, day after day
+    pure (st.report (dayName i ++ "s") (i.toNat + 1) (hasRealIn (posts.filter (fun p => Cal.weekday p.date ≤ i))) ++ rest)
 
 def dow (posts : List RPost) : Except RErr (List RPost) := dowDays posts [0, 1, 2, 3, 4, 5, 6]
 
@@ -394,18 +444,24 @@ def totalsKey (depth : Nat) (p : RPost) : String :=
 
 /-- `post.add_to_value(find_totals(post.account), amount_expr)`: a fresh map
     entry is a null value. -/
-def totalsStep (o : Option Value) (p : RPost) : Value := vplus (o.getD .void) p.amount
+def totalsStep (o : Option Value) (p : RPost) : Value := vplus (o.getD .void) p.value
 
 /-- accumulate one transaction's postings into the totals map. -/
 def totalsOf (depth : Nat) (g : List RPost) : AMap Value :=
   g.foldl (fun m p => m.upd (totalsKey depth p) (fun o => totalsStep o p)) []
 
+/-- handle_value (filters.cc 359-367): an INTEGER (or BOOLEAN) value is cast to an amount -/
+def castInt : Value → Value
+  | .int n => .amt (Amount.ofInt n)
+  | v => v
+
 /-- collapse_posts::report_subtotal (filters.cc 399-459) for one transaction
     `g`.  `passSingle`: with `--collapse` alone (display predicate
     `post|depth<=1`, true of every posting) a transaction with one displayed
     posting is passed through unchanged.  `σ` is the enumeration order of the
-    totals map, which the code keys by `account_t *` (address order – C19's
-    subject); the sums proved in Props/C17 hold for every `σ`. -/
+    totals map; the code now orders it by account fullname
+    (`account_name_less`, filters.h 433-437), which is the order `AMap` keeps, so
+    the report uses `σ = id`; the sums proved in Props/C17 hold for every `σ`. -/
 def collapseGroup (depth : Nat) (passSingle : Bool) (σ : AMap Value → AMap Value) (g : List RPost) : List RPost :=
   match g.getLast? with
   | none => []
@@ -413,7 +469,7 @@ def collapseGroup (depth : Nat) (passSingle : Bool) (σ : AMap Value → AMap Va
     if depth = 0 ∧ passSingle ∧ g.length = 1 then [lastp]
     else (σ (totalsOf depth g)).map (fun kv =>
       { line := 0, xid := lastp.xid, date := minDate g, payee := lastp.payee, account := kv.1,
-        virt := false, amount := kv.2 })
+        virt := false, amount := castInt kv.2, value := castInt kv.2, vdate := maxDate g })
 
 structure CollapseState where
   group : List RPost        -- component_posts
@@ -437,31 +493,62 @@ def collapse (depth : Nat) (passSingle : Bool) (σ : AMap Value → AMap Value) 
 
 /-! ### the report -/
 
-inductive Opt
-  | plain
-  | sort (ks : List SortKey)
-  | head (n : Int)
-  | tail (n : Int)
-  | subtotal
-  | collapse
-  | byPayee
-  | dow
-  | depth (n : Nat)
+inductive Pre | none | dow | byPayee
+deriving DecidableEq, Repr
+
+/-- the options of this model, any subset of which may be given -/
+structure Opts where
+  pre      : Pre := .none                          -- --dow wins over --by-payee (chain.cc 221-224)
+  subtotal : Bool := false
+  collapse : Bool := false
+  depth    : Option Nat := none
+  sort     : Option (Bool × List SortKey) := none   -- (true = --sort-xacts, keys); --sort-all is --sort
+  head     : Option Int := none
+  tail     : Option Int := none
 deriving Repr
 
-/-- `reg` rows (posting, running total) under one option, in chain.cc's order:
-    regrouping → sort → calc → truncate. -/
-def report (o : Opt) (posts : List RPost) : Except RErr (List (RPost × Value)) :=
-  match o with
-  | .plain => .ok (register posts)
-  | .sort ks => .ok (register (sortPosts ks posts))
-  | .head n => .ok (truncate (fun r => r.1.xid) n 0 (register posts))
-  | .tail n => .ok (truncate (fun r => r.1.xid) 0 n (register posts))
-  | .subtotal => (subtotal posts).map register
-  | .collapse => .ok (register (collapse 0 true id posts))
-  | .byPayee => (byPayee posts).map register
-  | .dow => (dow posts).map register
-  | .depth n => .ok (register (collapse n false id posts))
+/-- first regrouping stage: `--dow` or `--by-payee` -/
+def preStage (o : Opts) (posts : List RPost) : Except RErr (List RPost) :=
+  match o.pre with
+  | .none => .ok posts
+  | .dow => dow posts
+  | .byPayee => byPayee posts
+
+/-- second stage: `--subtotal` -/
+def subStage (o : Opts) (s1 : List RPost) : Except RErr (List RPost) :=
+  if o.subtotal then subtotal s1 else .ok s1
+
+/-- third stage: collapse_posts, present under `--collapse` or `--depth N` (chain.cc 196-205) -/
+def colStage (o : Opts) (s2 : List RPost) : List RPost :=
+  if o.collapse ∨ o.depth.isSome then
+    collapse (o.depth.getD 0) (o.collapse && o.depth.isNone) id s2
+  else s2
+
+/-- the regrouping stages in chain.cc's data-flow order: dow | by-payee, then
+    subtotal, then collapse. -/
+def regroup (o : Opts) (posts : List RPost) : Except RErr (List RPost) :=
+  match preStage o posts with
+  | .error e => .error e
+  | .ok s1 =>
+    match subStage o s1 with
+    | .error e => .error e
+    | .ok s2 => .ok (colStage o s2)
+
+def sortStage (o : Opts) (l : List RPost) : List RPost :=
+  match o.sort with
+  | none => l
+  | some (false, ks) => sortPosts ks l
+  | some (true, ks) => sortXacts ks l
+
+/-- truncate_xacts exists when either option is given; an absent count is 0 (chain.cc 135-141) -/
+def truncStage (o : Opts) (rows : List (RPost × Value)) : List (RPost × Value) :=
+  if o.head.isSome ∨ o.tail.isSome then
+    truncate (fun r => r.1.xid) (o.head.getD 0) (o.tail.getD 0) rows
+  else rows
+
+/-- `reg` rows (posting, running total): regrouping → sort → calc → truncate. -/
+def report (o : Opts) (posts : List RPost) : Except RErr (List (RPost × Value)) :=
+  (regroup o posts).map (fun s => truncStage o (register (sortStage o s)))
 
 end Regroup
 end Ledger
